@@ -52,6 +52,16 @@ def base_formulas(tier):
     return fs, fut
 
 
+def arith_formulas():
+    """formulas in which an arithmetic term occurs twice (named: `a = abs(x); out = (a <= y) and (a >= 1)`)"""
+    X, Y = F.X, F.Y
+    ax = ('abs', X)
+    d = ('-', X, Y)
+    return [('and', ('pred', '<=', ax, Y), ('pred', '>=', ax, F.C1)),
+            ('or', ('once', (0, 1), ('pred', '>', d, F.C0)), ('prev', ('pred', '<=', d, F.C1))),
+            ('since', (0, 1), ('pred', '>=', ('*', ax, F.C2), F.C1), ('pred', '<', ax, Y))]
+
+
 def const_cases():
     """(formula with ('const', name) leaves / named bounds, consts, inlined formula)"""
     px1 = ('pred', '>=', F.X, ('const', 'c1'))
@@ -85,10 +95,10 @@ def variants(f, limit):
             return
 
 
-def variants_any(f, limit):
+def variants_any(f, limit, arith=False):
     """like variants(), but any named sub-formula counts (also stateless ones such as a predicate used twice)"""
     seen = set()
-    for defs, top in M.decompositions(f, limit=None):
+    for defs, top in M.decompositions(f, limit=None, arith=arith):
         subs, text = M.texts(defs, top)
         k = (tuple(subs), text)
         if k in seen:
@@ -108,6 +118,10 @@ def shards(tier):
             n = len(list(variants(f, limit)))
             for vi in range(n):
                 out.append({'f': F.to_json(f), 'future': future, 'vi': vi})
+    for f in arith_formulas():
+        n = len(list(variants_any(f, limit, arith=True)))
+        for vi in range(n):
+            out.append({'f': F.to_json(f), 'future': False, 'vi': vi, 'arith': True})
     out.append({'consts': True})
     return out
 
@@ -238,7 +252,8 @@ def run_shard(shard, tier, res):
         return
     f = F.from_json(shard['f'])
     limit = 6 if tier == 'quick' else 40
-    for vi, (subs, text, defs, top) in enumerate(variants(f, limit)):
+    vlist = variants_any(f, limit, arith=True) if shard.get('arith') else variants(f, limit)
+    for vi, (subs, text, defs, top) in enumerate(vlist):
         if vi != shard['vi']:
             continue
         res.formulas += 1
